@@ -407,6 +407,22 @@ class TraceSetJob(_NumericJob):
                     if g.shape != tuple(dims) or not np.array_equal(g, expg):
                         bad.append(("index_grids_equal_their_definition", "%s(%s, iaxis=%d), call %d" % (fn.__name__, dims, ax, rnd + 1)))
                     g += 3
+        # the bases hand out fresh arrays: a caller scaling a returned basis in place (func_fit does so with `inputfunc`) must not change later results
+        from pydl.goddard.math import flegendre
+        from pydl.pydlutils.trace import fchebyshev, fpoly, func_fit
+        xx = np.linspace(-1.0, 1.0, 7)
+        for nm, f in (("legendre", flegendre), ("chebyshev", fchebyshev), ("poly", fpoly)):
+            for form in ("array", "fit"):
+                if form == "array":
+                    a = f(xx, 4)
+                    a *= 2.5
+                    a[0] = 7.0
+                else:
+                    func_fit(xx, 1.0 + xx ** 2, 4, function_name=nm, inputfunc=np.linspace(0.5, 1.5, 7))
+                b = np.asarray(f(xx.copy(), 4), dtype=float)
+                if b.shape != (4, 7) or not np.allclose(b, _ref_basis(nm, xx, 4), rtol=1e-12, atol=1e-12):
+                    bad.append(("results_are_fresh_arrays_and_inputs_unchanged", "%s basis after an earlier result was modified in place (%s): max deviation %g" %
+                                (nm, form, np.abs(b - _ref_basis(nm, xx, 4)).max() if b.shape == (4, 7) else -1)))
         g1 = djs_laxisgen([5])
         g1 += 1
         if not np.array_equal(djs_laxisgen([5]), np.arange(5)):
